@@ -1030,6 +1030,193 @@ def family_steepest_ls(ctx, r, exact, n, opaque=False):
     return []
 
 
+# ---------------------------------------------------------------------------
+# ROUND 4: resumption of the paths whose state is more than the iterate
+
+def family_proxgrad_lam(ctx, r, exact, n, opaque=False):
+    """proximal_gradient with a CALLABLE lam: the iteration counter is hidden state.  Oracle (real
+    code only): lam is called once per iteration with k = 0 .. n-1; n then m iterations with the
+    schedule SHIFTED by n in the second call = n + m iterations.  Model: ProxGradP.step with the
+    table of lam values (C11.resume_proximal_gradient_callable)."""
+    from odl.solvers import proximal_gradient
+    p = gen_proxgrad(r, exact, False)
+    p.update(solver='proxgrad_lam', cseed=r.cseed, exact=exact, opaque=opaque)
+    tab = [r.choice([1.0, 0.5, 1.5, 0.25, 0.75, 1.25]) for _ in range(max(n, 1))]
+    varying = len(set(tab[:n])) > 1
+    p['lam'] = 'callable'
+
+    def call(x_start, k, offset, mk=unflat):
+        x = mk(p['space'], x_start)
+        rec, ks = Recorder(), []
+
+        def lam(i):
+            ks.append(i)
+            return tab[offset + i]
+        st, _ = guarded(proximal_gradient, x, p['f'], p['g'], p['gamma'], k, callback=rec, lam=lam)
+        return st, rec.iterates, flat(x).copy(), ks
+
+    def runner(state, k, mode='same'):
+        mk = sl.unflat_distinct if mode == 'distinct-space' else unflat
+        x_start, off = (p['x0'], 0) if state is None else (state[0], int(state[1][0]))
+        st, log, x, ks = call(x_start, k, off, mk)
+        if st == 'ok' and ks != list(range(k)):
+            viol(ctx, 'proximal_gradient callable lam: arguments of lam f={} g={}'.format(p['fk'], p['gk']),
+                 'lam was called with {} in {} iterations (expected 0..{})'.format(ks[:12], k, k - 1), p, n=n)
+        return st, log, (x, np.array([off + k]))
+    runner.modes = ('distinct-space',)
+    st, log, full = resume_oracle(ctx, p, n, runner, 'proximal_gradient(callable lam, schedule shifted)')
+    if st == 'ok':
+        check_callback(ctx, p, n, log, full[0], 'proximal_gradient(callable lam)')
+    a = n // 2
+    cases = []
+    sig = ('model', 'proxgrad_lam', p['fk'], p['gk'], 'varying' if varying else 'constant',
+           steps_class(exact), n)
+    nt = st == 'ok' and nontrivial(log, p['x0'])
+    base = 'proxgradlam pf={} gg={} gamma={}'.format(p['F'].prox(p['gamma']), p['G'].grad, fs(p['gamma']))
+    cases.append(Case(desc_of(p, n=n), sig if nt else None,
+                      base + ' lams={} x0={} n={}'.format(fl(tab[:n]), fl(p['x0']), n), st, log))
+    ctx.hit('model/proxgrad_lam/fresh')
+    ctx.hit('model/proxgrad_lam/schedule=' + ('varying' if varying else 'constant'))
+    if st == 'ok' and n >= 2:
+        st1, _, mid, _ = call(p['x0'], a, 0)
+        st2, log2, end, _ = call(mid, n - a, a)
+        if st1 == 'ok':
+            cases.append(Case(desc_of(p, n=n - a, resumed_after=a), sig + ('resumed',) if nt else None,
+                              base + ' lams={} x0={} n={}'.format(fl(tab[a:n]), fl(mid), n - a), st2, log2,
+                              {'x': end} if st2 == 'ok' else {}))
+            ctx.hit('model/proxgrad_lam/resumed(shifted)')
+            # the excluded class: a caller who keeps only x and passes the same callable again
+            st3, _, end3, _ = call(mid, n - a, 0)
+            ctx.hit('excluded/callable lam resumed unshifted: ' +
+                    ('differs' if st3 != 'ok' or sl.arrays_differ([end3], [full[0]]) else 'same'))
+    return cases
+
+
+FSPEC = {'zero': lambda F: 'zero', 'l1': lambda F: 'l1:1', 'nonneg': lambda F: 'nonneg',
+         'a_l1': lambda F: 'l1:' + F.prox(1).split(':')[1],
+         'l1_t': lambda F: 't:{}:l1:1'.format(F.prox(1).split(':')[1]),
+         'l2sq': lambda F: 'l2sq:1', 'half_l2sq': lambda F: 'l2sq:1/2',
+         'l2sq_t': lambda F: 't:{}:l2sq:1'.format(F.prox(1).split(':')[1]),
+         'box': lambda F: 'box:{}:{}'.format(*F.prox(1).split(':')[1:3])}
+
+
+def acc_steps(mode, g, tau, sigma, k):
+    """(tau_k, sigma_k) of an accelerated pdhg run, recomputed WITHOUT the solver (the recurrence of
+    the step sizes does not involve the iterates: C11.pdhg_acc_steps_closed)"""
+    t, s = float(tau), float(sigma)
+    for _ in range(k):
+        if mode == 'primal':
+            th = float(1 / np.sqrt(1 + 2 * g * t))
+            t, s = t * th, s / th
+        elif mode == 'dual':
+            th = float(1 / np.sqrt(1 + 2 * g * s))
+            t, s = t / th, s * th
+    return t, s
+
+
+def gen_pdhg_acc(r, exact):
+    kind, L = sl.operator_zoo(r)
+    F = sl.functional_zoo(r, L.domain, exact=exact)
+    G = sl.functional_zoo(r, L.range, exact=exact)
+    mode = r.choice(['primal', 'primal', 'dual', 'dual', 'none'])
+    tau, sigma = sl.pick_step(r, exact), sl.pick_step(r, exact)
+    g = r.choice([0.5, 1.0, 2.0, 0.25] if exact else [0.5, 1.0, 0.3, 2.0, 0.7])
+    sq_exact = False
+    if exact and mode != 'none' and r.random() < 0.6:
+        # 1 + 2 * gamma * step = 4: the square root of the FIRST iteration is exact (theta = 1/2)
+        step, g = r.choice([(0.5, 3.0), (0.25, 6.0), (0.125, 12.0)])
+        if mode == 'primal':
+            tau = step
+        else:
+            sigma = step
+        sq_exact = True
+    return dict(solver='pdhg_acc', opkind=kind, L=L, f=F.f, g=G.f, F=F, G=G, fk=F.name, gk=G.name,
+                tau=tau, sigma=sigma, theta=r.choice([None, 1.0, 0.5, 0.0]), mode=mode, gam=g,
+                sq_exact=sq_exact, x0=sl.dy_vec(r, size_of(L.domain), 16, 8))
+
+
+def family_pdhg_acc(ctx, r, exact, n, opaque=False):
+    """pdhg with gamma_primal / gamma_dual (tau, sigma, theta are loop-carried, the proximals are
+    rebuilt from the factories in every iteration).  Oracle (real code only): n then m iterations
+    with x_relax, y AND the recomputed step sizes (acc_steps) passed to the second call = n + m
+    iterations; one callback per iteration.  Model: PdhgAccP.step (C11.pdhg_acc_resume)."""
+    from odl.solvers import pdhg
+    p = gen_pdhg_acc(r, exact)
+    p.update(cseed=r.cseed, exact=exact, opaque=opaque)
+    mode, g, L = p['mode'], p['gam'], p['L']
+    n = 1 if (p['sq_exact'] and r.random() < 0.7) else min(n, 8)
+    kw = {} if p['theta'] is None else {'theta': p['theta']}
+    theta = 1.0 if p['theta'] is None else p['theta']
+    if mode == 'primal':
+        kw['gamma_primal'] = g
+    elif mode == 'dual':
+        kw['gamma_dual'] = g
+
+    def call(state, k, mk=unflat, **over):
+        if state is None:
+            x = unflat(L.domain, p['x0'])
+            xr, y, ts = x.copy(), L.range.zero(), (p['tau'], p['sigma'])
+        else:
+            x, xr, y = mk(L.domain, state[0]), mk(L.domain, state[1]), mk(L.range, state[2])
+            ts = (float(state[3][0]), float(state[3][1]))
+        ts = over.get('steps', ts)
+        rec = Recorder()
+        st, _ = guarded(pdhg, x, p['f'], p['g'], L, k, tau=ts[0], sigma=ts[1], callback=rec,
+                        x_relax=xr, y=y, **kw)
+        return st, rec.iterates, (flat(x).copy(), flat(xr).copy(), flat(y).copy(),
+                                  np.array(acc_steps(mode, g, ts[0], ts[1], k)))
+
+    def runner(state, k, mode='same'):
+        return call(state, k, sl.unflat_distinct if mode == 'distinct-space' else unflat)
+    runner.modes = ('distinct-space',)
+    st, log, full = resume_oracle(ctx, p, n, runner,
+                                  'pdhg(gamma_{}; x_relax, y, tau_n, sigma_n passed back)'.format(mode),
+                                  ('x', 'x_relax', 'y'))
+    if st == 'ok':
+        check_callback(ctx, p, n, log, full[0], 'pdhg(accelerated)')
+    sig = ('model', 'pdhg_acc', mode, p['opkind'], p['fk'], p['gk'], steps_class(exact), n)
+    nt = st == 'ok' and nontrivial(log, p['x0'])
+    A, At = wire_op(L)
+    base = 'pdhgacc A={} At={} ff={} gf={} theta={} gp={} gd={}'.format(
+        fmat(A), fmat(At), FSPEC[p['fk']](p['F']), FSPEC[p['gk']](p['G']), fs(theta),
+        fs(g) if mode == 'primal' else 'none', fs(g) if mode == 'dual' else 'none')
+
+    def extras(st_, out, inexact):
+        e = {'x': out[0], 'xr': out[1], 'y': out[2], 'tau': out[3][:1], 'sigma': out[3][1:]} \
+            if st_ == 'ok' else {}
+        if inexact:
+            e['_inexact'] = True
+        return e
+    # square roots are irrational except in the first iteration of the `sq_exact` cases
+    # ... and the conjugate of an L1 term is the L-infinity ball projection, which ODL computes with
+    # the radius lam * (1 - 1e-14) (same rule as `ball:` in solverlib.line_exact)
+    inexact = (mode != 'none' and not (p['sq_exact'] and n == 1)) or p['gk'] in ('l1', 'a_l1', 'l1_t')
+    cases = [Case(desc_of(p, n=n, mode=mode), sig if nt else None,
+                  base + ' tau={} sigma={} x0={} n={}'.format(fs(p['tau']), fs(p['sigma']), fl(p['x0']), n),
+                  st, log, extras(st, full, inexact))]
+    ctx.hit('model/pdhg_acc/gamma=' + mode)
+    ctx.hit('model/pdhg_acc/fresh')
+    if not inexact and mode != 'none':
+        ctx.hit('model/pdhg_acc/exact-sqrt')
+    if st == 'ok' and n >= 2:
+        a = n // 2
+        st1, _, mid = call(None, a)
+        st2, log2, end = call(mid, n - a)
+        if st1 == 'ok':
+            cases.append(Case(desc_of(p, n=n - a, resumed_after=a, mode=mode),
+                              sig + ('resumed',) if nt else None,
+                              base + ' tau={} sigma={} x0={} xr={} y={} n={}'.format(
+                                  fs(mid[3][0]), fs(mid[3][1]), fl(mid[0]), fl(mid[1]), fl(mid[2]), n - a),
+                              st2, log2, extras(st2, end, inexact)))
+            ctx.hit('model/pdhg_acc/resumed(steps handed back)')
+            if mode != 'none' and a >= 1:
+                # the excluded class: x_relax and y passed back, but the ORIGINAL tau, sigma
+                st3, _, end3 = call(mid, n - a, steps=(p['tau'], p['sigma']))
+                ctx.hit('excluded/accelerated pdhg resumed with the original steps: ' +
+                        ('differs' if st3 != 'ok' or sl.arrays_differ([end3[0]], [full[0]]) else 'same'))
+    return cases
+
+
 FAMILIES = {
     'admm': family_admm,
     'adupdates': family_adupdates,
@@ -1042,6 +1229,8 @@ FAMILIES = {
     'pdhg': family_pdhg,
     'steepest_ls': family_steepest_ls,
     'resume_float32': family_resume_float32,
+    'proxgrad_lam': family_proxgrad_lam,
+    'pdhg_acc': family_pdhg_acc,
 }
 EXPECTED_BRANCHES = [
     'model/admm/opt', 'model/admm/simple', 'model/adupdates/inner', 'model/adupdates/outer',
@@ -1062,6 +1251,12 @@ EXPECTED_BRANCHES = [
     'start/equal-distinct-space/adupdates', 'start/equal-distinct-space/dpdc',
     'oracle/steepest_descent+BacktrackingLineSearch resume/stateless',
     'oracle/steepest_descent+BacktrackingLineSearch resume/estimate_step',
+    # round 4
+    'model/proxgrad_lam/fresh', 'model/proxgrad_lam/resumed(shifted)', 'model/proxgrad_lam/schedule=varying',
+    'model/proxgrad_lam/schedule=constant', 'resume/equal-distinct-space/proxgrad_lam',
+    'model/pdhg_acc/gamma=primal', 'model/pdhg_acc/gamma=dual', 'model/pdhg_acc/gamma=none',
+    'model/pdhg_acc/fresh', 'model/pdhg_acc/resumed(steps handed back)', 'model/pdhg_acc/exact-sqrt',
+    'resume/equal-distinct-space/pdhg_acc',
 ]
 OPAQUE_FAMILIES = ('admm', 'adupdates', 'dpdc', 'proxgrad', 'pdhg')
 
@@ -1074,11 +1269,16 @@ class SeededRandom(random.Random):
 
 # ---------------------------------------------------------------------------
 
+def is_exact(c):
+    """exact comparison: short dyadic inputs and no irrational square root on the path"""
+    return sl.line_exact(c.line) and not c.extra.get('_inexact')
+
+
 def add_envelopes(cases, rerun):
     """For the cases that are NOT compared exactly: re-run the same family call under input
     perturbations of +-1e-9 (throw-away context) and attach the sensitivity envelope of every
     iterate / final state component.  `rerun()` returns the list of Cases of the same call."""
-    need = [c.impl_status == 'ok' and not sl.line_exact(c.line) for c in cases]
+    need = [c.impl_status == 'ok' and not is_exact(c) for c in cases]
     if not any(need):
         return
     perts = []
@@ -1180,7 +1380,7 @@ def run(ctx, deep=False):
             ctx.disagree(c.desc, c.impl_status, 'ok')
             continue
         d = None
-        ex = sl.line_exact(c.line)
+        ex = is_exact(c)
         ctx.hit('compare/' + ('exact' if ex else 'tolerance'))
         if c.impl_log is not None:
             d = compare_seq(ctx, c, c.impl_log, core.pfmat(fields.get('log', '-')), ex)
